@@ -19,7 +19,7 @@ from harness.impl import plots as P
 from harness.props import c17gen as G
 
 PROP_FILE = "Props/C17.v"
-IMPORTS = "Prelude PlotSeries"
+IMPORTS = "Prelude PlotSeries PlotFlow GenPlot"
 TRUSTED = [
     "Coq 8.16.1 kernel (coqc, full .vo build); vm_compute for the non-vacuity Examples, the _refuted witness and "
     "for evaluating cases",
@@ -37,8 +37,13 @@ TRUSTED = [
     "xarray selection / broadcast / transpose order, Normalize and Colormap.__call__ in binary64; rendering "
     "(pixels, layout, fonts) is out of scope",
     "hand model Model/PlotSeries.v of gen_xy / prepare_x_vals_histogram / prepare_heatmap_data / "
-    "calc_color_norm / calc_line_colors / mpl_multi_plot, tied to the code by differential execution only (no "
-    "translator unit: the code is xarray / numpy calls)",
+    "calc_color_norm / calc_line_colors / mpl_multi_plot, tied to the code by differential execution; in addition "
+    "translator gen_plot.py regenerates the data path of xyzpy/plot/core.py as data (the arrays that decide the "
+    "finite-mask of a series, the arrays it is applied to, what the histogram is fed, the mesh orientation), checks "
+    "the shape of the statements around it (sources per branch, joint broadcast, positional z selection, colour-scale "
+    "limits, colour of a series) and pins 13 small helpers; Model/PlotFlow.v interprets that data, "
+    "Proofs/PlotFlowProofs.v shows the interpretation of the modelled data is PlotSeries.v, and the correspondence "
+    "evaluates the interpretation of the REGENERATED data (C17_generated_flow, C17_flow_is_model)",
     "the colour index is computed on exact rationals; it equals matplotlib's binary64 computation because data "
     "values are multiples of 1/4 below 2^12 and every colour table used has N = 256 (a power of two): a "
     "quotient that is not exactly representable is at least 2^-14 away from an index boundary; for evenly "
@@ -473,7 +478,7 @@ def model_expr(plan, obs, canon_names):
           f"{labels} {cm} {N} {canon} {oid(plan.row)} {oid(plan.col)} "
           f"{qstr(plan.row or '')} {qstr(plan.col or '')} {rowl} {coll})")
     if plan.kind in ("lineplot", "scatter"):
-        return f"fig_lines {sp}"
+        return f"fig_lines_flow gen_plot_flow {sp}"
     if plan.kind == "histogram":
         # edges as read from the drawn polygons, on a common integer grid
         per_panel = {}
@@ -490,11 +495,11 @@ def model_expr(plan, obs, canon_names):
         for i, j, _ in plan.panels():
             fr = per_panel.get((i, j), [])
             edges.append(core.zlist([int(f * den) for f in fr]))
-        return f"fig_hist {sp} [{'; '.join(edges)}] {den // 4}"
+        return f"fig_hist_flow gen_plot_flow {sp} [{'; '.join(edges)}] {den // 4}"
     lo = core.zopt(getattr(plan, "user_lo", None))
     hi = core.zopt(getattr(plan, "user_hi", None))
     wc = "true" if heat_colors_modelled(plan) else "false"
-    return f"fig_heat {sp} {nid[case['z']]} {nid[case['x']]} {nid[case['y']]} {lo} {hi} {wc}"
+    return f"fig_heat_flow gen_plot_flow {sp} {nid[case['z']]} {nid[case['x']]} {nid[case['y']]} {lo} {hi} {wc}"
 
 
 def canon_preamble():
@@ -827,9 +832,12 @@ def run_stream(c, cases, canon_names, preamble):
 
 def run(tier, seed):
     c = core.Check("C17", tier, seed)
-    core.regen()
+    gen_st = core.regen()
     b = core.build(PROP_FILE)
+    c.cov["translator"] = gen_st.get("GenPlot")
     c.cov["build"] = {"ok": b["ok"], "failed_file": b["failed_file"], "wall_s": round(b.get("wall_s", 0), 1)}
+    if not gen_st.get("GenPlot", {}).get("ok"):
+        c.obligation_broken("translator GenPlot", gen_st.get("GenPlot", {}).get("detail", "unit missing"))
     if not b["ok"]:
         c.obligation_broken(f"Coq build of {b['failed_file']}", b["log_tail"][-1200:])
     if b["ok"] and tier == "thorough":
